@@ -383,12 +383,20 @@ class Program:
         is_util = rel.startswith("util/")
         ftab = self.util_functions if is_util else self.functions
         gtab = self.util_globals if is_util else self.globals
-        from .inline import lower_const_conditionals
+        from .inline import lower_const_conditionals, lower_record_literals
+        recs9 = {}
+        for r9 in raw["records"]:
+            if r9.get("fields"):
+                for nm9 in (r9.get("name"), r9.get("alias")):
+                    if nm9:
+                        recs9.setdefault(nm9, r9)
         for fj in raw["functions"]:
             try:
                 lower_const_conditionals(fj)
             except Exception:
                 pass
+            if any(n9 and n9.get("k") == "CompoundLiteralExpr" for n9 in fj.get("nodes") or []):
+                lower_record_literals(fj, recs9)
             fn = Function(fj, rel, self)
             _normalise_boolean_searches(fn)
             if fn.name in ftab:
